@@ -27,7 +27,7 @@ GXX = ['g++', '-std=c++17', '-O1', '-g', '-w', '-mbmi2', '-D' + GUARD, '-I' + RE
        '-fsanitize=address', '-fsanitize=float-cast-overflow,bounds,shift,null', '-fno-sanitize-recover=all']
 GCC_TWIN = ['gcc', '-O1', '-fno-strict-aliasing', '-fwrapv', '-w', '-DVERIF_TWIN', '-I' + os.path.join(ROOT, 'rt'),
             '-I' + os.path.join(ROOT, 'harness')]
-CBMC_BASE = ['--unwinding-assertions', '--no-malloc-may-fail', '--drop-unused-functions', '--undefined-shift-check',
+CBMC_BASE = ['--object-bits', '10', '--unwinding-assertions', '--no-malloc-may-fail', '--drop-unused-functions', '--undefined-shift-check',
              '--signed-overflow-check', '--trace']
 STUBS = [
     'operator new = malloc + assume non-NULL (allocation failure out of scope; --no-malloc-may-fail); operator delete = free',
@@ -120,10 +120,18 @@ def differential(job, wd, seed, count):
     rc1, o1, t1 = sh([os.path.join(wd, 'twin'), '--random', str(seed), str(count)], timeout=600)
     rc2, o2, t2 = sh([os.path.join(wd, 'real'), '--random', str(seed), str(count)], timeout=600, env=ASAN_ENV)
     l1 = o1.strip().split('\n'); l2 = o2.strip().split('\n')
-    viol = [l for l in l2 if ' VIOLATED ' in l or 'CRASH' in l or 'ERROR: AddressSanitizer' in l or 'runtime error' in l]
+    viol = [l for l in l2 if ' VIOLATED ' in l]
+    crashed = rc2 != 0 or any('ERROR: AddressSanitizer' in l or 'runtime error:' in l or 'CRASH' in l for l in l2)
+    if crashed:
+        # the real build died (sanitizer report / signal) inside case number k: the twin, which is in step, names its inputs
+        k = 0
+        while k < len(l2) and l2[k].startswith('in=['): k += 1
+        if k < len(l1) and l1[k].startswith('in=['):
+            viol.append(l1[k].split(' out=')[0] + ' out=[] CRASH-IN-REAL-BUILD ' + ' | '.join(l.strip() for l in l2[k:k + 4])[:300])
+        l2 = l2[:k]; l1 = l1[:k]
     res['real_violations'] = viol[:5]
-    if rc2 != 0 and not viol:
-        raise Inconclusive('real build crashed in the differential run: ' + o2[-1500:])
+    if crashed and not viol:
+        raise Inconclusive('real build crashed in the differential run and the case could not be identified: ' + o2[-1500:])
     if rc1 != 0:
         raise Inconclusive('twin (translated C) crashed in the differential run: rc=%s %s' % (rc1, o1[-1500:]))
     same = diff = capped = 0; first = None
@@ -139,15 +147,15 @@ def differential(job, wd, seed, count):
             if first is None: first = (a, b)
     res.update(cases_identical=same, cases_differ=diff, cases_beyond_model_capacity=capped, t=round(t1 + t2, 2))
     ins = []
-    for a in l1:
-        m = re.match(r'in=\[([^\]]*)\] out=\[([^\]]*)\] ok', a)
+    for a in o1.strip().split('\n'):
+        m = re.match(r'in=\[([^\]]*)\] out=\[([^\]]*)\] (?!CAPPED)', a)
         if m and m.group(1): ins.append(([int(x) for x in m.group(1).split(',')], m.group(2)))
     res['_inputs'] = ins
     if len(l1) != len(l2) and not viol:
         raise Inconclusive('differential runs produced different numbers of cases (%d vs %d)' % (len(l1), len(l2)))
     if diff and not viol:
         raise Inconclusive('ENCODING MISMATCH twin vs real: %r vs %r' % first)
-    if same == 0 and not viol:
+    if same == 0 and not viol and not crashed:
         raise Inconclusive('differential run accepted no case')
     return res
 
@@ -167,7 +175,7 @@ def profile_bounds(job, wd, inputs, cfiles, inc, dfl):
         if len(picks) >= job.get('profile_samples', 12): break
     mx = {}
     def one(vals):
-        cmd = ['cbmc'] + cfiles + inc + dfl + ['-DVERIF_FIXED=' + ','.join('%dULL' % v for v in vals), '--unwind', '24', '--no-malloc-may-fail', '--drop-unused-functions',
+        cmd = ['cbmc'] + cfiles + inc + dfl + ['-DVERIF_FIXED=' + ','.join('%dULL' % v for v in vals), '--unwind', '80', '--no-malloc-may-fail', '--drop-unused-functions',
                '--no-pointer-check', '--no-bounds-check', '--no-div-by-zero-check', '--no-standard-checks', '--verbosity', '9', '--program-only']
         rc, out, t = sh(cmd, timeout=180, mem_gb=8)
         loc = {}
